@@ -71,3 +71,55 @@ REGISTRY.update({
     "C12": marker_runner(pm.oracle_c12, 250, 4000, GEN_RULE, PENDING),
     "C15": marker_runner(pm.oracle_c15, 500, 8000, GEN_RULE, PENDING),
 })
+
+
+# ------------------------------------------------------------------ tag properties
+import props_tags as pt
+
+TAG_RULE = "see the oracle: the property's own configuration grid (C09) / tag universe x requires_python grid (C08) / EnvSpec grid (C16) / PEP 427 name grid (C18)"
+REGISTRY.update({
+    "C08": marker_runner(pt.oracle_c08, 0, 0, "python/abi tag universe (majors 2-3, minors 0-20 thorough, 10 minors quick; every implementation/gil setting; PEP 3149/703 ABI spellings) x requires_python grid; reference = some admitted interpreter X.Y.Z (packaging SpecifierSet) can load it", PENDING),
+    "C09": marker_runner(pt.oracle_c09, 0, 0, "the whole configuration grid of the property: manylinux 2.5..2.50 x 7 architectures, musllinux 1.1..1.5, macOS 10.4..10.16 and 11..30 x 2 architectures, Windows x 3; full lists compared with the PEP rule oracle and with packaging.tags (probes stubbed)", PENDING),
+    "C16": marker_runner(pt.oracle_c16, 0, 0, "pairs of EnvSpec over requires_python x platform x implementation; wheels from the tag universe", PENDING),
+    "C18": marker_runner(pt.oracle_c18, 0, 0, "PEP 427 names: name/version spellings x build tag x compressed tag sets x platform tags incl. ones ending in characters of '.whl'; platform strings of all documented families with multi-digit X_Y", PENDING),
+})
+
+
+# ------------------------------------------------------------------ parse / render / membership
+import props_parse as pp
+
+REGISTRY.update({
+    "C17": marker_runner(pp.oracle_c17, 1500, 30000, "specifier texts over the public PEP 440 grammar (epochs, 1-5 release segments, every pre/post/dev spelling and separator, case, leading zeros, v prefix, whitespace), near-miss invalid strings and single-character mutations, || joins, <empty>; reference = packaging's SpecifierSet per alternative", PENDING),
+    "C06": marker_runner(pp.oracle_c06, 1200, 20000, "parsed specifiers (fixed list hitting every rendering heuristic + random texts) and random &,|,~ trees over them; distinct = (class, number of ranges, bound-shape class: pre/post/dev/epoch/length mismatch)", PENDING),
+    "C04": marker_runner(pp.oracle_c04, 1200, 20000, "expression trees over parsed leaves; candidates = 39 fixed final releases plus final releases around every bound of the result; reference = Boolean combination of packaging's SpecifierSet(leaf).contains(v)", PENDING),
+})
+
+
+def run_c13(ctx: Ctx):
+    ctx.level = "other"
+    ctx.trusted_base = MARKER_TRUST
+    ctx.coverage["explanation"] = PENDING
+    props_spec.run_c13_spec(ctx)
+    pm.oracle_c13_markers(ctx, _n(ctx, 200, 3000))
+    ctx.coverage["rule"] = ("pairs/triples of canonical specifiers incl. AnySpecifier vs RangeSpecifier(), respelled bounds (1.0 vs 1.0.0); marker pairs "
+                            "that compare equal but were built differently (operand order, value order, zero padding) plus random pairs; "
+                            "checks reflexivity, symmetry, transitivity, hash agreement and interchangeability as operands")
+
+
+REGISTRY["C13"] = run_c13
+
+
+def with_algebra_cone(inner, pid):
+    """C04/C06/C17 theorems are stated over the regenerated specifier algebra: re-check that cone and the
+    translator's validation stream as part of the property"""
+    def run(ctx: Ctx):
+        inner(ctx)
+        ok = props_spec.proof_step(ctx, "Props/C01.v", ["C01_closure (dependency: algebra exact on every expression)"], extra_targets=["Model/Corr.v"])
+        ctx.level = "other"
+        if not any(b["kind"] == "translation" for b in ctx.broken):
+            pairs = props_spec.corpus_pairs() + props_spec.spec_pairs(ctx, 400 if ctx.tier == "quick" else 6000, exhaustive=False)
+            props_spec.stream_sgen(ctx, pairs, with_predicates=False)
+    return run
+
+
+REGISTRY["C04"] = with_algebra_cone(REGISTRY["C04"], "C04")
